@@ -1417,8 +1417,12 @@ class Interp:
             return v.value
         if isinstance(v, bool) or v is None or isinstance(v, int):
             return str(v)
+        if isinstance(v, SymB):
+            return SymS(z3.If(v.t, z3.StringVal('True'), z3.StringVal('False')))
+        if isinstance(v, SymI):
+            return SymS(STR_OF(PyV.int_(v.t)))
         if isinstance(v, SymV):
-            # a value that the surrounding contract declares to be a string
+            # str() of an arbitrary value: an uninterpreted function of the value
             if self.opt.get('symv_str', True):
                 return SymS(STR_OF(v.t))
         r = self.models.to_str(self, v)
